@@ -37,7 +37,8 @@ type GenCfg struct {
 	MultiLang   bool // more than one language value
 	SubSecondDur bool
 	Only        map[string]bool // when set: only these fields are ever generated
-	Force       map[string]bool // fields that are always generated (when the type has them)
+	Force       map[string]bool // fields generated with probability ForcePct (default 100) when the type has them
+	ForcePct    int
 	counter     int
 }
 
@@ -135,7 +136,7 @@ func (g *GenCfg) genNode(r *RNG, goType string, depth int, embedded bool) T {
 		if g.Only != nil && !g.Only[name] && name != "ID" && name != "Type" {
 			continue
 		}
-		forced := g.Force != nil && g.Force[name]
+		forced := g.Force != nil && g.Force[name] && (g.ForcePct == 0 || r.Chance(g.ForcePct))
 		switch name {
 		case "ID":
 			if !(embedded && g.EmptyTypes && r.Chance(15)) {
